@@ -70,4 +70,37 @@ example :
       [(0, .routine, "A_collector"), (1, .routine, "A_ctor"), (2, .routine, "A_f"),
        (3, .routine, "B_collector"), (4, .upcast, "B_collector"), (5, .routine, "B_ctor")] := by decide
 
+theorem total_append (n : Nat) (ops ops' : List (Op α)) : total n (ops ++ ops') = total (total n ops) ops' := by
+  induction ops generalizing n with
+  | nil => rfl
+  | cons o r ih => cases o <;> simp [total, ih]
+
+theorem sites_append (n : Nat) (ops ops' : List (Op α)) :
+    sites n (ops ++ ops') = sites n ops ++ sites (total n ops) ops' := by
+  induction ops generalizing n with
+  | nil => rfl
+  | cons o r ih => cases o <;> simp [sites, total, ih]
+
+/-- **earlier call sites are never disturbed by later declarations.**  For every history `ops` and every continuation
+    `ops'` (further classes, functions, files): the dispatch table of the longer history begins with the dispatch table
+    of `ops` — same ids, same roles, same payloads — and the new cases start at the first free id. -/
+theorem C05_history_prefix_stable (ops ops' : List (Op α)) :
+    let st := run {} ops
+    let st' := run {} (ops ++ ops')
+    (caseTable st'.entries st'.next (st'.next + 1) 0 none).map (fun x => (x.1, x.2.1, x.2.2.payload))
+      = (caseTable st.entries st.next (st.next + 1) 0 none).map (fun x => (x.1, x.2.1, x.2.2.payload))
+        ++ sites st.next ops' := by
+  intro st st'
+  have h1 := C05_dispatch_table_is_call_sites ops
+  have h2 := C05_dispatch_table_is_call_sites (ops ++ ops')
+  simp only at h1 h2
+  have hn : (run ({} : IdState α) ops).next = total 0 ops := by
+    have := run_eq ({} : IdState α) ops
+    simp only [this]
+  show List.map _ (caseTable (run {} (ops ++ ops')).entries _ _ 0 none) = List.map _ (caseTable (run {} ops).entries _ _ 0 none) ++ sites (run {} ops).next ops'
+  rw [h2, h1, sites_append, hn]
+
+/-- non-vacuity: a plain routine and a virtual class, then one more routine: it gets id 3 and the first three cases stay -/
+example : sites 0 ([Op.plain "a", Op.virt "B"] ++ [Op.plain "c"]) = sites 0 [Op.plain "a", Op.virt "B"] ++ [(3, Role.routine, "c")] := by decide
+
 end WrapModel.Props.C05
